@@ -277,3 +277,58 @@ def c16(run, args):
                        "equals what the contract's state changes require (exactly one stored per entering, one deleted per leaving message), that no two invocations overlap, stored precedes deleted "
                        "per message, and stored events of one mailbox arrive in arrival order; in the ordering variants each invocation takes 1-2 ms so that the following operations emit while it runs")
     run.assumptions += ["quiescence: the history ends when no invocation started or finished for 5 ms", "size limit 4 KiB with messages of 1-3 KB so that a new message always survives its own delivery"]
+
+
+# --------------------------------------------------------------------------- C11
+def c11(run, args):
+    quick = run.tier == "quick"
+    rng = random.Random(run.seed)
+    vh = run.build_harness()
+    if args.replay:
+        d = json.load(open(args.replay))
+        behaviours = [d["behaviour"]]
+    else:
+        run.model_check("MCMailstore", MC_CFG % dict(caps="0, 2", limits="0", maxadds=3), label="MCMailstore(caps)")
+        # pre-history + target operation = every mutator sequence to a bounded depth; the last operation is the one that is interrupted
+        bfs = run.generate("GenMailstore", gen_cfg(2, [1], [1], 4 if quick else 5, scan=False, seen=True))
+        bfs = [b for b in bfs if b[-1]["op"] in ("add", "seen", "remove", "purge")]
+        # a mailbox whose index spans several 4096-byte buffers
+        longpre = [{"op": "add", "mb": 0, "id": 0, "meta": 1, "size": 1} for _ in range(70)]
+        tails = run.generate("GenMailstore", gen_cfg(1, [1], [1], 1, scan=False, seen=True))
+        big = [longpre + t for t in tails] + [longpre + [{"op": "remove", "mb": 0, "id": 35, "meta": 0, "size": 0}], longpre + [{"op": "seen", "mb": 0, "id": 70, "meta": 0, "size": 0}]]
+        count_distinct(run, bfs + big)
+        run.cov["exhaustive"] = True
+        sets = [bucket_pair(3, rng) + ["other"], bucket_pair(6, rng) + ["other"], ["alpha", "beta", "gamma"]]
+        behaviours = []
+        for i, ops in enumerate(bfs + big):
+            caps = [0, 2] if not quick else [[0, 2][(i + run.seed) % 2]]
+            if len(ops) > 20:
+                caps = [0, 70]
+            for cap in caps:
+                behaviours.append({"id": "cr-%d-c%d" % (i, cap), "store": "file", "cap": cap, "maxkb": 0, "names": sets[i % len(sets)],
+                                   "ops": [dict(o, size=o["size"] * 600) for o in ops]})
+        run.cov["samples"] = [bfs[len(bfs) // 2]]
+    names = sorted({n for b in behaviours for n in b["names"]})
+    tf = run.harness_parallel(vh, "crash", behaviours, "c11", procs=12)
+    res = run.validate("MailstoreTrace", TRACE_CFG % dict(mbs=tla_set(names), capinv="CapInv"), tf)
+    run.cov["evaluations"] += res["events"]
+    ncrash = sum(1 for l in open(tf) if '"a":"crash"' in l)
+    run.cov["crash_states"] = ncrash
+    byid = {b["id"]: b for b in behaviours}
+    for r in res["rejections"]:
+        b = byid.get(r["trace"], {})
+        ev = r["rejected_event"]
+        if ev.get("a") == "crash":
+            tgt = b["ops"][-1]
+            what = ("C11 crash consistency: file store cap=%s: process dies at %s (hook #%s, %s) while %s on mailbox %r: after restart open=%s list/visit errors=%s body read errors=%s new delivery=%s; "
+                    "the state is neither the one before nor the one after the operation, or the store is unusable") % (
+                b.get("cap"), ev.get("site"), ev.get("k"), ev.get("variant"), tgt["op"], ev.get("mb"), ev.get("open"), ev.get("serr"), ev.get("rerr"), ev.get("deliver"))
+        else:
+            what = "C11: event #%d '%s' of the pre-history is not explained by the Mailstore contract" % (r["rejected_event_index"], ev.get("a"))
+        run.violation(what, {"behaviour": b, "rejection": {k: v for k, v in r.items() if k != "accepted_prefix"}, "replay_kind": "crash"})
+    run.cov["rule"] = ("fault enumeration: for every mutator sequence to the stated depth over mailboxes that share the level-1 / level-2 directories (plus a mailbox whose index spans several "
+                       "write buffers), the last operation is interrupted at every file-system mutation point of the file store (hook before/after mkdir, raw create/copy/flush/close, index "
+                       "create/encode/flush/close, raw remove, recursive directory removal), including the shorter states a buffered writer can leave (every 4096-byte multiple, empty) and partial "
+                       "recursive removals; each on-disk state is opened by a fresh store and TLC checks: no error listing/visiting/reading, state = before or after the operation, new delivery accepted")
+    run.assumptions += ["process death with an intact operating system: everything written before the instant of death is on disk; power loss (unsynced page cache) is not modelled",
+                        "partial recursive removal is enumerated in sorted and reverse-sorted directory order", "retention scan is not a target operation (the property names deliver, mark, remove, purge)"]
